@@ -69,7 +69,19 @@ def array_const(prog, c, width):
     return None
 
 
-def f64_consts(prog, inst):
+def f64_consts(prog, inst, cone=True):
+    """f64 literals used by `inst` and (cone=True) by the crate-local functions it reaches: a helper extracted from the
+    function keeps its constants in the search"""
+    out = []
+    insts = [inst]
+    if cone:
+        insts = [prog.inst[i] for i in prog.reach([inst.id]) if prog.inst[i].local and prog.inst[i].body is not None] or [inst]
+    for i_ in insts:
+        out.extend(_f64_consts_one(prog, i_))
+    return out
+
+
+def _f64_consts_one(prog, inst):
     out = []
     for t, c in consts_in(prog, inst, lambda t: t.tag == "Float" and t.arg == "F64"):
         k = c["kind"]
